@@ -200,21 +200,54 @@ def run(ctx, rep):
            "all %d machinery names present" % len(needed) if not lost else
            "LOCAL_ATTRS lost %s: the proxy now forwards its own machinery attribute(s) to the peer" % lost,
            bn.module.relpath, kind="table")
+    # class_factory: model evaluation (class resolution through the module table, forwarders for exactly the non-local names)
+    from .. import miniinterp as MIc
     fcf = ctx.func(NETREF + ".class_factory")
-    loops = [n for n in A.walk(fcf.node) if isinstance(n, ast.For) and A.src(n.iter) == A.params(fcf.node)[1]]
-    oks = False
-    if loops:
-        ifs = [n for n in A.walk(loops[0]) if isinstance(n, ast.If)]
-        mk = A.find_calls(loops[0], "_make_method")
-        oks = len(ifs) == 1 and isinstance(ifs[0].test, ast.Compare) and isinstance(ifs[0].test.ops[0], ast.NotIn) and \
-            A.src(ifs[0].test.comparators[0]) == "LOCAL_ATTRS" and len(mk) == 1 and A.contains(ifs[0], mk[0])
-    rep.ob("R02.3", "class_factory generates a forwarder for every remote method except the LOCAL_ATTRS names", oks,
-           "`if name not in LOCAL_ATTRS: ns[name] = _make_method(name, doc)`" if oks else
-           "class_factory no longer skips exactly the LOCAL_ATTRS names", fcf.loc)
-    okb = any(isinstance(n, ast.Call) and A.call_name(n) == "type" and len(n.args) == 3 and "BaseNetref" in A.src(n.args[1])
-              for n in A.walk(fcf.node))
-    rep.ob("R02.3", "class_factory derives every proxy class from BaseNetref", okb, "type(name, (BaseNetref,), ns)" if okb else
-           "generated proxy classes no longer derive from BaseNetref", fcf.loc, kind="site")
+    rep.analysed(fcf)
+    THING = MIc.ModelObj("class Thing", {"__class__": "type", "__name__": "Thing"})
+    INNER = MIc.ModelObj("class Inner", {"__class__": "type", "__name__": "Inner"})
+    INTC = MIc.ModelObj("class int", {"__class__": "type", "__name__": "int"})
+    BASE = MIc.ModelObj("BaseNetref")
+
+    class _NSm:
+        mi_native = True
+
+        def __init__(self, **kw):
+            self.__dict__.update(kw)
+    mods = {"pkg": MIc.ModelObj("module pkg", {"__dict__": {"Thing": THING}}),
+            "a.b": MIc.ModelObj("module a.b", {"__dict__": {"Inner": INNER}}),
+            "a": MIc.ModelObj("module a", {"__dict__": {}})}
+    globs = {"_normalized_builtin_types": {"builtins.int": INTC}, "sys": _NSm(modules=mods), "LOCAL_ATTRS": LOCAL,
+             "NetrefClass": lambda c_: MIc.ModelObj("descriptor", {"owner": c_}),
+             "_make_method": lambda n_, d_: ("forwarder", n_, d_), "BaseNetref": BASE,
+             "type": lambda n_, b_, ns_: ("class", n_, tuple(b_), dict(ns_))}
+    methods_in = [("go", "doc-go"), ("__len__", "doc-len"), ("__class__", "x"), ("__del__", "y"), ("____conn__", "z"),
+                  ("__getattribute__", "w"), ("fetch", None)]
+    want_fwd = {n_: ("forwarder", n_, d_) for n_, d_ in methods_in if n_ not in LOCAL}
+    bad_cf = []
+    try:
+        for idp, want_name, want_owner in ((("pkg.Thing", 7, 0), "Thing", THING), (("a.b.Inner", 8, 3), "Inner", INNER),
+                                           (("nowhere.Cls", 9, 5), "nowhere.Cls", None), (("builtins.int", 1, 0), "int", INTC),
+                                           (("pkg.Missing", 2, 0), "pkg.Missing", None)):
+            extra_cf = {"__globals__": globs, "__max_iter__": 100}
+            extra_cf["__global_lookup__"] = K.module_function_lookup(ctx, fcf.module, extra_cf)
+            got = MIc.call_function(fcf.node, [idp, list(methods_in)], extra_cf)
+            if not (isinstance(got, tuple) and got and got[0] == "class"):
+                bad_cf.append("%s: class_factory returns %r" % (idp[0], got))
+                continue
+            _, nm_, bases_, ns_ = got
+            desc = ns_.get("__class__")
+            owner = desc.attrs.get("owner") if isinstance(desc, MIc.ModelObj) else None
+            fwd = {k_: v_ for k_, v_ in ns_.items() if k_ not in ("__slots__", "__class__")}
+            if nm_ != want_name or bases_ != (BASE,) or owner is not want_owner or ns_.get("__slots__") != () or fwd != want_fwd:
+                bad_cf.append("%s: class %r, bases %s, __class__ owner %s, forwarders %s (expected class %r, owner %s, forwarders %s)" % (
+                    idp[0], nm_, [getattr(b_, "name", b_) for b_ in bases_], getattr(owner, "name", owner), sorted(fwd),
+                    want_name, getattr(want_owner, "name", None), sorted(want_fwd)))
+        rep.ob("R02.3", "class_factory generates a forwarder for every remote method except the LOCAL_ATTRS names", not bad_cf,
+               "5 identifiers x %d advertised methods: forwarders exactly for %s; class resolved through the module table; base class "
+               "BaseNetref" % (len(methods_in), sorted(want_fwd)) if not bad_cf else "; ".join(bad_cf)[:500], fcf.loc, kind="table")
+    except (AnalysisError, MIc.Raised) as e_:
+        rep.undecided("R02.3", "class_factory", str(e_))
 
     # ------------------------------------------------------------------ R02.4
     K.share(ctx, rep, "c01", lambda o: o.rule == "R01.3", "R02.4", floor=3)
